@@ -50,13 +50,7 @@ def run(ctx):
     import c10
     # I-INDEX for the fold path (index = enumerate counter at the first placeholder, everything else pushed)
     tti = f.hir_fn("to_terms_with_image", module="enum_narsese::term")
-    ms = [n for n in hir.walk(tti["body"]) if n.get("k") == "Match" and hir.strip(n["scrut"])["k"] == "Tup"]
-    ok = len(hir.find_calls(tti["body"], "enumerate")) == 1 and len(ms) == 1 and len(ms[0]["arms"]) == 2
-    if ok:
-        first = ms[0]["arms"][0]
-        ps = first["pat"]["pats"] if first["pat"]["k"] == "Tuple" else []
-        ok = len(ps) == 2 and hir.pat_variants(ps[0]) == {"Placeholder"} and hir.pat_variants(ps[1]) == {"None"} and ms[0]["arms"][1]["pat"]["k"] == "Wild" \
-            and len(hir.find_calls(ms[0]["arms"][1]["body"], "push")) == 1
+    ok = c10.tti_shape(tti)
     ctx.ob("I-INDEX", "to_terms_with_image: index = counter at the first placeholder, all other items pushed (so index <= pushed count)", ok, "")
     progress.rule_L_PROGRESS(ctx, set(p for p in reach if "impl_enum::parser" not in p), 8, enum=False)
     progress.rule_L_RECURSION_lexical(ctx, reach)
